@@ -11,7 +11,7 @@ import math
 import re
 
 from ..core import Rule, AnalysisError, C_LIB
-from .. import cfront, clib, cfg as _cfg
+from .. import cfront, clib, ceval, cfg as _cfg
 
 LIB = C_LIB
 OBJ = clib.OBJ
@@ -88,229 +88,173 @@ class Ev(object):
         return d is not None and re.search(r"\[\d+\]", d.type) is not None
 
 
-def cell_conditions(call):
-    """Conditions under which the call executes, from enclosing if/switch statements."""
-    cond = {}
-    child = call
-    for a in call.ancestors():
-        if a.kind == "FunctionDecl":
-            break
-        if a.kind == "IfStmt":
-            then_b = a.children[1]
-            in_then = then_b.begin <= call.begin and call.end <= then_b.end
-            atoms = []
-            e = a.children[0].strip()
-            stack = [e]
-            conj = True
-            while stack:
-                x = stack.pop().strip()
-                if x.kind == "BinaryOperator" and x.opcode == "&&":
-                    stack.extend(x.children)
-                elif x.kind == "BinaryOperator" and x.opcode == "||":
-                    conj = False
-                else:
-                    atoms.append(x)
-            for x in atoms:
-                if not (x.kind == "BinaryOperator" and x.opcode in ("==", "!=")):
-                    continue
-                lhs = x.children[0].path()
-                rhs_txt = re.sub(r"\s", "", x.children[1].nsrc)
-                rv = x.children[1].intval()
-                eq = x.opcode == "=="
-                if not in_then:
-                    if len(atoms) != 1:
-                        continue
-                    eq = not eq
-                elif not conj:
-                    continue
-                if lhs == "classType" and eq:
-                    cond["class"] = rhs_txt
-                elif lhs == OBJ + "->is_complex" and rv == 0:
-                    cond["complex"] = not eq
-                elif lhs == "numBytes" and rv is not None and eq:
-                    cond["bytes"] = rv
-                elif lhs == "signType" and rhs_txt == "H5T_SGN_NONE":
-                    cond["unsigned"] = eq
-        elif a.kind == "CaseStmt":
-            sw = [x for x in a.ancestors() if x.kind == "SwitchStmt"]
-            if sw and sw[0].children[0].path() == "numBytes":
-                cond["bytes"] = a.children[0].intval()
-        child = a
-    return cond
-
-
 def bswap_min(nbytes):
     """Value of the byte-reversed image of the N-byte minimum, read as a native signed integer."""
     b = (-(1 << (8 * nbytes - 1))).to_bytes(nbytes, "little", signed=True)
     return int.from_bytes(bytes(reversed(b)), "little", signed=True)
 
 
-def r1_fill_table(repo=None):
-    r = Rule("C07.R1", "fill-value table matches the documented missing-data values in every cell (constant evaluation)")
+CELLS = [("H5T_FLOAT", nb, None, cplx) for nb in (4, 8) for cplx in (0, 1)] + \
+        [("H5T_INTEGER", nb, sg, cplx) for nb in (1, 2, 4, 8) for sg in ("H5T_SGN_2", "H5T_SGN_NONE") for cplx in (0, 1)]
+
+
+def _cell_name(cell):
+    cls, nb, sg, cplx = cell
+    return "%s %d-byte %s%s" % ("complex" if cplx else "real", nb, "float" if cls == "H5T_FLOAT" else (
+        "signed" if sg == "H5T_SGN_2" else "unsigned"), "" if cls == "H5T_FLOAT" else " integer")
+
+
+def run_cell(fn, cell, host_little, order):
+    """Concrete execution of digital_rf_set_fill_value for one element type / host order / data order.  Returns
+    (return value, [H5Pset_fill_value (prop, type id, Addr)], machine)."""
+    cls, nb, sg, cplx = cell
+
+    def oracle(name, args, node):
+        base = bool(args) and args[0] == "DT"
+        if name == "H5Tget_class":
+            return cls if base else "H5T_COMPOUND"
+        if name == "H5Tget_size":
+            return nb if base else 2 * nb
+        if name == "H5Tget_sign":
+            return (sg or "H5T_SGN_2") if base else "H5T_SGN_ERROR"
+        if name == "H5Tget_order":
+            return order if base else "H5T_ORDER_NONE"
+        if name == "digital_rf_is_little_endian":
+            return int(host_little)
+        if name.startswith("H5P"):
+            return 0
+        if name in ("fprintf", "printf", "snprintf"):
+            return 0
+        return None
+    env = {OBJ + "->dtype_id": "DT", OBJ + "->complex_dtype_id": "CDT", OBJ + "->dataset_prop": "PROP", OBJ + "->is_complex": cplx}
+    m = ceval.Machine(fn, env, oracle)
+    rv = m.run()
+    fills = [(a, node) for name, a, node in m.trace if name == "H5Pset_fill_value"]
+    return rv, fills, m
+
+
+def fill_table(repo=None):
+    """{cell: [(host_little, order, problems, description)]} by executing the function for every cell and order pair"""
     tu = cfront.lib(repo)
     fn = tu.fn(F)
-    ev = Ev(fn)
-    calls = fn.calls(("H5Pset_fill_value",))
-    if len(calls) < 17:
-        raise AnalysisError("%s: %d H5Pset_fill_value call sites, 17 confirmed on the reference tree" % (F, len(calls)))
-    cells = set()
-    for c in calls:
-        cond = cell_conditions(c)
-        prop = c.args[0].path()
-        tid = c.args[1].path()
-        obj = c.args[2].strip(casts=True)
-        objexpr = obj.children[0].strip(casts=True) if obj.kind == "UnaryOperator" and obj.opcode == "&" else None
-        site = "%s:%s %s cell %s" % (LIB, c.line, F, sorted(cond.items()))
-        cons = "H5Pset_fill_value(%s, %s) for %s" % (c.args[1].nsrc, c.args[2].nsrc, sorted(cond.items()))
-        if objexpr is None or prop != OBJ + "->dataset_prop":
-            r.violation(LIB, F, cons, "unrecognised fill value object / property list", line=c.line)
-            continue
-        indexed = objexpr.kind == "ArraySubscriptExpr"
-        var = (objexpr.children[0].path() if indexed else objexpr.path())
-        idx = objexpr.children[1].path() if indexed else None
-        sizes = ev.elem_sizes(var)
-        d = ev.vars.get(var)
-        full = ev.value(d.children[-1]) if d is not None and d.children else None
-        cls = cond.get("class")
-        cplx = cond.get("complex")
-        nb = cond.get("bytes")
-        uns = cond.get("unsigned")
-        probs = []
-        if cls not in ("H5T_FLOAT", "H5T_INTEGER") or cplx is None:
-            r.violation(LIB, F, cons, "cell conditions not recognised (class/complex)", line=c.line)
-            continue
-        # type id
-        want_tid = OBJ + ("->complex_dtype_id" if cplx else "->dtype_id")
-        if tid != want_tid:
-            probs.append("type id %s passed, %s expected for %s data" % (tid, want_tid, "complex" if cplx else "real"))
-        ncomp = 2 if cplx else 1
-        if cls == "H5T_FLOAT":
-            want = [float("nan")] * ncomp
-            vals = full if isinstance(full, list) else [full]
-            if indexed:
-                probs.append("float fill must not depend on byte order")
-            if len(vals) != ncomp or not all(isinstance(v, float) and math.isnan(v) for v in vals):
-                probs.append("value %r is not NaN in every component" % (vals,))
-            if not sizes or any(s != nb for s in sizes) or len(sizes) != ncomp:
-                probs.append("object element sizes %s do not match %s-byte %s" % (sizes, nb, "complex" if cplx else "real"))
-            cells.add(("f", nb, cplx))
-        else:
-            if uns is None and not cplx:
-                uns = False
-            if uns:
-                vals = full if isinstance(full, list) else [full]
-                if isinstance(vals, list) and vals and isinstance(vals[0], list):
-                    probs.append("unsigned fill must not depend on byte order")
-                if not all(v == 0 for v in vals):
-                    probs.append("unsigned fill value %r is not zero" % (vals,))
-                if cplx:
-                    if not sizes or len(sizes) != 2 or any(s != nb for s in sizes):
-                        probs.append("object fields %s do not match two %s-byte components" % (sizes, nb))
-                    cells.add(("u", nb, True))
-                else:
-                    if not sizes or sizes[0] is None or sizes[0] < 8:
-                        probs.append("object of %s bytes may be smaller than the HDF5 type (over-read)" % sizes)
-                    for n_ in (1, 2, 4, 8):
-                        cells.add(("u", n_, False))
-            else:
-                if nb is None:
-                    probs.append("signed integer cell without a byte count")
+    sizes_of = Ev(fn)
+    out = {}
+    for cell in CELLS:
+        cls, nb, sg, cplx = cell
+        rows = []
+        for host_little in (1, 0):
+            for order in ("H5T_ORDER_LE", "H5T_ORDER_BE"):
+                rv, fills, m = run_cell(fn, cell, host_little, order)
+                probs = []
+                desc = ""
+                line = fn.line
+                if rv != 0 or not fills:
+                    rows.append((host_little, order, ["no fill value: the function returns %r after %d H5Pset_fill_value calls" % (
+                        rv, len(fills))], "", line, True))
+                    continue
+                if len(fills) != 1:
+                    probs.append("%d H5Pset_fill_value calls" % len(fills))
+                (prop, tid, addr), node = fills[-1]
+                line = node.line
+                if prop != "PROP":
+                    probs.append("fill value set on %r, not on the dataset creation property list" % (prop,))
+                want_tid = "CDT" if cplx else "DT"
+                if tid != want_tid:
+                    probs.append("type id %s passed, %s expected for %s data" % (
+                        {"DT": "dtype_id", "CDT": "complex_dtype_id"}.get(tid, tid), "complex_dtype_id" if cplx else "dtype_id",
+                        "complex" if cplx else "real"))
+                if not isinstance(addr, ceval.Addr) or addr.var not in m.env:
+                    probs.append("fill value object not resolved (%r)" % (addr,))
+                    rows.append((host_little, order, probs, desc, line, False))
+                    continue
+                val = m.env[addr.var]
+                if addr.index is not None:
+                    val = val[addr.index] if isinstance(val, list) and isinstance(addr.index, int) and 0 <= addr.index < len(val) else None
+                ncomp = 2 if cplx else 1
+                comps = val if isinstance(val, list) else [val]
+                sizes = sizes_of.elem_sizes(addr.var)
+                desc = "%r" % (val,)
+                if cls == "H5T_FLOAT":
+                    if len(comps) != ncomp or not all(isinstance(v, float) and math.isnan(v) for v in comps):
+                        probs.append("value %r is not NaN in every component" % (comps,))
+                    if not sizes or len(sizes) != ncomp or any(z != nb for z in sizes):
+                        probs.append("object element sizes %s do not match %d-byte %s" % (sizes, nb, "complex" if cplx else "real"))
+                elif sg == "H5T_SGN_NONE":
+                    if len(comps) < ncomp or not all(v == 0 for v in comps):
+                        probs.append("unsigned fill value %r is not zero" % (comps,))
+                    if cplx:
+                        if not sizes or len(sizes) != 2 or any(z != nb for z in sizes):
+                            probs.append("object fields %s do not match two %d-byte components" % (sizes, nb))
+                    elif not sizes or sizes[0] is None or sizes[0] < nb:
+                        probs.append("object of %s bytes is smaller than the %d-byte HDF5 type (over-read)" % (sizes, nb))
                 else:
                     mn = -(1 << (8 * nb - 1))
-                    if nb == 1:
-                        want_rows = None
-                        want_val = [mn] * ncomp
-                        vals = full if isinstance(full, list) else [full]
-                        if indexed:
-                            vals = None
-                            probs.append("1-byte fill must not be indexed")
-                        elif vals != want_val:
-                            probs.append("value %r, expected %r (most negative 1-byte value)" % (vals, want_val))
-                    else:
-                        if not indexed or idx != "endian_flip":
-                            probs.append("multi-byte signed fill must be selected by endian_flip (got index %r)" % idx)
-                        want_rows = [[mn] * ncomp, [bswap_min(nb)] * ncomp] if cplx else [mn, bswap_min(nb)]
-                        if full != want_rows:
-                            probs.append("table %r, expected %r ([matching order: minimum], [swapped order: byte-reversed "
-                                         "image of the minimum])" % (full, want_rows))
-                    if not sizes or len(sizes) != ncomp or any(s != nb for s in sizes):
+                    same = nb == 1 or bool(host_little) == (order == "H5T_ORDER_LE")
+                    want = [mn if same else bswap_min(nb)] * ncomp
+                    if comps != want:
+                        probs.append("value %r, expected %r (%s)" % (comps, want, "most negative value" if same else
+                                     "byte-reversed image of the most negative value, because host and data byte order differ"))
+                    if not sizes or len(sizes) != ncomp or any(z != nb for z in sizes):
                         probs.append("object element sizes %s do not match %d-byte %s" % (sizes, nb, "complex" if cplx else "real"))
-                    cells.add(("i", nb, cplx))
-        if probs:
-            r.violation(LIB, F, cons, "; ".join(probs) + " (unwritten slots would not read as the documented missing-data value)",
-                        line=c.line)
-        else:
-            r.ok(site, "object %s = %r, element sizes %s, type id %s" % (var, full, sizes, tid.split("->")[-1]))
-    # endian_flip is set exactly when host order and file order disagree
-    g = _cfg.build_c(fn)
-    sets = [n for n in g.nodes if n.kind == "stmt" and n.ast.kind == "BinaryOperator" and n.ast.opcode == "="
-            and n.ast.children[0].path() == "endian_flip" and n.ast.children[1].intval() == 1]
-    inits = [n for n in g.nodes if n.kind == "stmt" and n.ast.kind == "BinaryOperator" and n.ast.opcode == "="
-             and n.ast.children[0].path() == "endian_flip" and n.ast.children[1].intval() == 0]
-    others = [n for p, n, rhs, k in clib.stores(fn) if p == "endian_flip" and not (k == "=" and rhs.intval() in (0, 1))]
-    combos = set()
-    for s_ in sets:
-        little = None
-        order = None
-        for a in s_.ast.ancestors():
-            if a.kind == "IfStmt" and a.children[1].begin <= s_.ast.begin <= a.children[1].end:
-                for x in a.children[0].walk():
-                    if x.kind == "CallExpr" and x.callee == "digital_rf_is_little_endian":
-                        neg = any(p.kind == "UnaryOperator" and p.opcode == "!" for p in x.ancestors()
-                                  if p.begin >= a.children[0].begin and p.end <= a.children[0].end)
-                        little = not neg
-                    if x.kind == "BinaryOperator" and x.opcode == "==" and x.children[0].path() == "write_endian":
-                        order = re.sub(r"\s", "", x.children[1].nsrc)
-        combos.add((little, order))
-    if combos == {(True, "H5T_ORDER_BE"), (False, "H5T_ORDER_LE")} and inits and not others:
-        r.ok("%s %s endian_flip" % (LIB, F), "initialised to 0 and set to 1 exactly for (little-endian host, BE data) and "
-             "(big-endian host, LE data)")
-    else:
-        r.violation(LIB, F, "endian_flip set under %s" % sorted(combos, key=str), "endian_flip must be 1 exactly when host byte "
-                    "order and data byte order differ", line=(sets[0].line if sets else fn.line))
-    # write_endian is the order of dtype_id
-    we = [rhs for p, n, rhs, k in clib.stores(fn) if p == "write_endian" and rhs is not None]
-    if len(we) == 1 and re.sub(r"\s", "", we[0].nsrc) == "H5Tget_order(%s->dtype_id)" % OBJ:
-        r.ok("%s %s write_endian" % (LIB, F), "= H5Tget_order(dtype_id)")
-    else:
-        r.violation(LIB, F, "write_endian = %s" % [x.nsrc for x in we], "data byte order is not taken from dtype_id", line=fn.line)
-    r._cells = cells
+                rows.append((host_little, order, probs, desc, line, False))
+        out[cell] = rows
+    return fn, out
+
+
+def r1_fill_table(repo=None):
+    r = Rule("C07.R1", "fill-value table matches the documented missing-data values in every cell (evaluation of all cells)")
+    fn, table = fill_table(repo)
+    for cell in CELLS:
+        rows = table[cell]
+        bad = [(h, o, p, d, ln) for h, o, p, d, ln, missing in rows if p and not missing]
+        if bad:
+            seen = set()
+            for h, o, p, d, ln in bad:
+                text = "; ".join(p)
+                if text in seen:
+                    continue
+                seen.add(text)
+                r.violation(LIB, F, "cell %s (%s-endian host, %s data): %s" % (_cell_name(cell), "little" if h else "big",
+                            "LE" if o.endswith("LE") else "BE", text), "unwritten slots would not read as the documented "
+                            "missing-data value", line=ln)
+        elif not any(missing for *_, missing in rows):
+            r.ok("%s:%s %s cell %s" % (LIB, rows[0][4], F, _cell_name(cell)), "fill value %s over the 4 host/data byte order "
+                 "combinations; right type id and object size" % " / ".join(sorted({d for _, _, _, d, _, _ in rows})))
     r.guard(19)
     return r
 
 
 def r2_exhaustive(repo=None):
     r = Rule("C07.R2", "every element type the extension can produce has a fill cell")
-    r1 = r1_fill_table(repo)
-    cells = r1._cells
-    missing = []
-    for cplx in (False, True):
-        for nb in (4, 8):
-            if ("f", nb, cplx) not in cells:
-                missing.append(("float", nb, cplx))
-        for nb in (1, 2, 4, 8):
-            for k in ("i", "u"):
-                if (k, nb, cplx) not in cells:
-                    missing.append((k, nb, cplx))
-    if missing:
-        for m in missing:
-            r.violation(LIB, F, "no fill cell for %r" % (m,), "a type accepted by the writer reaches the error exit of "
-                        "digital_rf_set_fill_value (or gets no fill value)")
-    else:
-        r.ok("%s %s" % (LIB, F), "all 20 (class, size, real/complex) cells of the dtype table have a fill value")
+    fn, table = fill_table(repo)
+    n = 0
+    for cell in CELLS:
+        miss = [(h, o, p) for h, o, p, d, ln, missing in table[cell] if missing]
+        if miss:
+            h, o, p = miss[0]
+            r.violation(LIB, F, "no fill cell for %s" % _cell_name(cell), "a type accepted by the writer reaches the error exit of "
+                        "digital_rf_set_fill_value (or gets no fill value): %s" % p[0], line=fn.line)
+        else:
+            n += 1
+    if n == len(CELLS):
+        r.ok("%s %s" % (LIB, F), "all 20 (class, size, signedness, real/complex) cells of the dtype table set a fill value and return 0")
     r.guard(1)
     return r
 
 
 def _eval_bool(e, env):
-    s = e.strip()
+    s = e.strip(casts=True)
     if s.kind == "BinaryOperator" and s.opcode == "&&":
         return _eval_bool(s.children[0], env) and _eval_bool(s.children[1], env)
     if s.kind == "BinaryOperator" and s.opcode == "||":
         return _eval_bool(s.children[0], env) or _eval_bool(s.children[1], env)
     if s.kind == "UnaryOperator" and s.opcode == "!":
         return not _eval_bool(s.children[0], env)
-    if s.kind == "BinaryOperator" and s.opcode in ("==", "!="):
+    if s.kind == "ConditionalOperator":
+        return _eval_bool(s.children[1], env) if _eval_bool(s.children[0], env) else _eval_bool(s.children[2], env)
+    if s.kind == "IntegerLiteral":
+        return bool(s.intval())
+    if s.kind == "BinaryOperator" and s.opcode in ("==", "!=", ">", "<"):
         p = s.children[0].path()
         v = s.children[1].intval()
         if p is None or v is None:
@@ -318,11 +262,54 @@ def _eval_bool(e, env):
         name = p.split("->")[-1]
         if name not in env:
             raise AnalysisError("condition reads unexpected variable %s" % p)
-        return (env[name] == v) if s.opcode == "==" else (env[name] != v)
+        return {"==": env[name] == v, "!=": env[name] != v, ">": env[name] > v, "<": env[name] < v}[s.opcode]
     p = s.path()
     if p is not None and p.split("->")[-1] in env:
         return bool(env[p.split("->")[-1]])
     raise AnalysisError("cannot evaluate condition %s" % s.nsrc)
+
+
+def _mentions(e, names):
+    for x in e.walk():
+        p = x.path() if x.kind in ("DeclRefExpr", "MemberExpr") else None
+        if p and p.split("->")[-1] in names:
+            return True
+    return False
+
+
+def value_under(fn, target, env, names):
+    """The expression (CNode) or boolean last stored to `target` in fn when the flags have the values env: stores are taken in
+    source order, a store counts when every enclosing if/?: condition that mentions a flag evaluates to its branch.
+    Returns (value node or bool, store node) or (None, None)."""
+    best = (None, None)
+    for p, n, rhs, k in clib.stores(fn):
+        if p != target or k != "=" or rhs is None:
+            continue
+        live = True
+        for a in n.ancestors():
+            if a.kind == "IfStmt" and _mentions(a.children[0], names):
+                inthen = a.children[1].begin <= n.begin and n.end <= a.children[1].end
+                if _eval_bool(a.children[0], env) != inthen:
+                    live = False
+        if not live:
+            continue
+        v = rhs.strip(casts=True)
+        while v.kind == "ConditionalOperator" and _mentions(v.children[0], names):
+            v = (v.children[1] if _eval_bool(v.children[0], env) else v.children[2]).strip(casts=True)
+        best = (v, n)
+    return best
+
+
+def _local_alias_text(fn, e):
+    """source text of e with a single-definition const local replaced by its initialiser"""
+    s = e.strip(casts=True)
+    p = s.path()
+    if s.kind == "DeclRefExpr" and p:
+        ds = [d for d in fn.find("VarDecl") if d.name == p and d.children]
+        st = [x for x in clib.stores(fn) if x[0] == p]
+        if len(ds) == 1 and not st:
+            return re.sub(r"\s", "", ds[0].children[-1].nsrc)
+    return re.sub(r"\s", "", s.nsrc)
 
 
 def r3_representation_switch(repo=None):
@@ -330,79 +317,89 @@ def r3_representation_switch(repo=None):
     tu = cfront.lib(repo)
     ctor = tu.fn("digital_rf_create_write_hdf5")
     st = clib.field_stores(tu, "needs_chunking")
-    if any(f != ctor.name for f, *_ in st) or len(st) != 2:
-        x = [s for s in st if s[0] != ctor.name] or st
-        r.violation(LIB, x[0][0] if x else ctor.name, "needs_chunking stored %d times" % len(st), "the representation flag "
-                    "must be decided once, in the constructor", line=x[0][1].line if x else ctor.line)
+    outside = [x for x in st if x[0] != ctor.name]
+    if outside:
+        r.violation(LIB, outside[0][0], outside[0][1].nsrc[:80], "the representation flag must be decided once, in the constructor",
+                    line=outside[0][1].line)
+    elif not st:
+        raise AnalysisError("needs_chunking is never stored")
     else:
-        ifs = [a for a in st[0][1].ancestors() if a.kind == "IfStmt"]
-        if not ifs:
-            raise AnalysisError("needs_chunking is not assigned under an if statement")
-        cond = ifs[0].children[0]
-        then_v = [s for s in st if ifs[0].children[1].begin <= s[1].begin <= ifs[0].children[1].end]
-        else_v = [s for s in st if s not in then_v]
-        ok = len(then_v) == 1 and len(else_v) == 1 and then_v[0][2].intval() == 1 and else_v[0][2].intval() == 0
-        table_ok = ok
-        if ok:
-            for cs in (0, 1):
-                for cl in (0, 5):
-                    for ic in (0, 1):
-                        got = _eval_bool(cond, {"checksum": cs, "compression_level": cl, "is_continuous": ic})
-                        want = bool(cs) or cl != 0 or ic != 1
-                        if got != want:
-                            table_ok = False
+        names = ("checksum", "compression_level", "is_continuous")
+        table_ok = True
+        first = st[0][1]
+        bad_combo = None
+        for cs in (0, 1):
+            for cl in (0, 5):
+                for ic in (0, 1):
+                    env = {"checksum": cs, "compression_level": cl, "is_continuous": ic}
+                    v, node = value_under(ctor, OBJ + "->needs_chunking", env, names)
+                    if v is None:
+                        raise AnalysisError("needs_chunking: no store applies for %s" % env)
+                    got = _eval_bool(v, env) if not isinstance(v, bool) else v
+                    want = bool(cs) or cl != 0 or ic != 1
+                    if got != want:
+                        table_ok = False
+                        bad_combo = (env, got)
         if table_ok:
-            r.ok("%s:%s %s needs_chunking" % (LIB, ifs[0].line, ctor.name), "= checksum || compression_level != 0 || "
-                 "!is_continuous over all 8 flag combinations; stored once")
+            r.ok("%s:%s %s needs_chunking" % (LIB, first.line, ctor.name), "= checksum || compression_level != 0 || "
+                 "!is_continuous over all 8 flag combinations; stored only in the constructor")
         else:
-            r.violation(LIB, ctor.name, "needs_chunking = (%s)" % cond.nsrc, "the dense representation must be selected exactly "
-                        "when continuous && no compression && no checksum", line=ifs[0].line)
+            r.violation(LIB, ctor.name, "needs_chunking is %d for %s" % (bad_combo[1], ", ".join("%s=%d" % kv for kv in sorted(
+                        bad_combo[0].items()))), "the dense representation must be selected exactly "
+                        "when continuous && no compression && no checksum", line=first.line)
     # use sites
     cf = tu.fn("digital_rf_create_hdf5_file")
-    def if_on_flag(fn, target):
-        out = []
-        for p, n, rhs, k in clib.stores(fn):
-            if p == target and k == "=":
-                for a in n.ancestors():
-                    if a.kind == "IfStmt":
-                        c = a.children[0].strip()
-                        if c.path() == OBJ + "->needs_chunking":
-                            out.append((a, n, rhs, a.children[1].begin <= n.begin <= a.children[1].end))
-                        break
-        return out
-    nr = if_on_flag(cf, "num_rows")
-    want = {True: "samples_to_write", False: "max_samples_this_file"}
-    got = {t: rhs.path() for a, n, rhs, t in nr}
-    if got == want:
-        r.ok("%s:%s %s num_rows" % (LIB, nr[0][0].line, cf.name), "samples_to_write when chunked, max_samples_this_file when dense")
+    flag = ("needs_chunking",)
+
+    def under_flag(fn, target):
+        out = {}
+        node = None
+        for fl in (1, 0):
+            v, n_ = value_under(fn, target, {"needs_chunking": fl}, flag)
+            if v is None:
+                return None, None
+            node = n_
+            out[bool(fl)] = v.intval() if v.intval() is not None else _local_alias_text(fn, v)
+        return out, node
+    got, node = under_flag(cf, "num_rows")
+    if got is None:
+        raise AnalysisError("%s: assignment of num_rows not found" % cf.name)
+    if got == {True: "samples_to_write", False: "max_samples_this_file"}:
+        r.ok("%s:%s %s num_rows" % (LIB, node.line, cf.name), "samples_to_write when chunked, max_samples_this_file when dense")
     else:
         r.violation(LIB, cf.name, "num_rows under needs_chunking: %s" % got, "dataset size does not follow the representation flag "
-                    "(a dense file must expose every slot of its window)", line=cf.line)
-    di = if_on_flag(cf, OBJ + "->dataset_index")
-    gotd = {t: (rhs.intval() if rhs.intval() is not None else re.sub(r"\s", "", rhs.nsrc)) for a, n, rhs, t in di}
+                    "(a dense file must expose every slot of its window)", line=node.line)
+    gotd, node = under_flag(cf, OBJ + "->dataset_index")
+    if gotd is None:
+        raise AnalysisError("%s: assignment of dataset_index not found" % cf.name)
     if gotd == {True: 0, False: "max_samples_this_file-samples_left"}:
-        r.ok("%s:%s %s dataset_index" % (LIB, di[0][0].line, cf.name), "0 when chunked, max - samples_left when dense")
+        r.ok("%s:%s %s dataset_index" % (LIB, node.line, cf.name), "0 when chunked, max - samples_left when dense")
     else:
         r.violation(LIB, cf.name, "dataset_index under needs_chunking: %s" % gotd, "write offset in a new file does not follow "
-                    "the representation flag", line=cf.line)
+                    "the representation flag", line=node.line)
     ci = tu.fn("digital_rf_create_rf_data_index")
-    reb = [n for p, n, rhs, k in clib.stores(ci) if k == "-=" and (p or "").startswith("ret_arr")]
+    reb = [(n, rhs) for p, n, rhs, k in clib.stores(ci) if k == "-=" and (p or "").endswith("[0]")]
     if len(reb) != 1:
-        r.violation(LIB, ci.name, "%d rebasing statements" % len(reb), "index row rebasing idiom not found", line=ci.line)
+        raise AnalysisError("%s: %d statements rebasing the first index row found, 1 confirmed on the reference tree" % (ci.name, len(reb)))
     else:
-        ifs = [a for a in reb[0].ancestors() if a.kind == "IfStmt"]
-        cond = ifs[0].children[0]
+        node, rhs = reb[0]
+        conds = [a for a in node.ancestors() if a.kind == "IfStmt" and _mentions(a.children[0], ("is_continuous",))][:1]
+        if not conds:
+            conds = [a for a in node.ancestors() if a.kind == "IfStmt"][:1]
         ok = True
         for ic in (0, 1):
             for nc in (0, 1):
-                if _eval_bool(cond, {"is_continuous": ic, "needs_chunking": nc}) != (bool(ic) and not nc):
+                env = {"is_continuous": ic, "needs_chunking": nc}
+                live = all(_eval_bool(_only(a.children[0], ("is_continuous", "needs_chunking")), env) == (
+                    a.children[1].begin <= node.begin and node.end <= a.children[1].end) for a in conds)
+                if live != (bool(ic) and not nc):
                     ok = False
-        rhs = [rhs for p, n, rhs, k in clib.stores(ci) if n is reb[0]][0]
-        if ok and re.sub(r"\s", "", rhs.nsrc) == "max_samples_this_file-samples_left":
-            r.ok("%s:%s %s" % (LIB, reb[0].line, ci.name), "first index row rebased by (max - samples_left) exactly when dense")
+        by = _local_alias_text(ci, rhs)
+        if ok and by == "max_samples_this_file-samples_left":
+            r.ok("%s:%s %s" % (LIB, node.line, ci.name), "first index row rebased by (max - samples_left) exactly when dense")
         else:
-            r.violation(LIB, ci.name, "rebasing under (%s) by %s" % (cond.nsrc, rhs.nsrc), "index row rebasing does not follow the "
-                        "representation flag", line=reb[0].line)
+            r.violation(LIB, ci.name, "rebasing under (%s) by %s" % (" && ".join(re.sub(r"\s+", " ", a.children[0].nsrc) for a in conds), by),
+                        "index row rebasing does not follow the representation flag", line=node.line)
     # fill value attached before any dataset is created: constructor passes set_fill_value with rejection
     g = _cfg.build_c(ctor)
     sf = [n for n in g.nodes if n.ast is not None and n.ast.calls((F,))]
@@ -418,6 +415,32 @@ def r3_representation_switch(repo=None):
     return r
 
 
+class _Const(object):
+    """stand-in CNode for a literal truth value"""
+    kind = "IntegerLiteral"
+
+    def __init__(self, v):
+        self.v = v
+
+    def strip(self, casts=False):
+        return self
+
+    def intval(self):
+        return self.v
+
+
+def _only(e, names):
+    """`e` with conjuncts that do not mention the flags dropped (they are assumed to hold: i == 0, file_exists ...)"""
+    s = e.strip(casts=True)
+    if s.kind == "BinaryOperator" and s.opcode == "&&":
+        l, r_ = s.children
+        if not _mentions(l, names):
+            return _only(r_, names)
+        if not _mentions(r_, names):
+            return _only(l, names)
+    return s
+
+
 PROP_SITES = {("digital_rf_create_write_hdf5", "H5Pset_deflate"), ("digital_rf_create_write_hdf5", "H5Pset_filter"),
               ("digital_rf_set_fill_value", "H5Pset_fill_value"), ("digital_rf_write_blocks_hdf5", "H5Pset_chunk"),
               ("digital_rf_free_hdf5_data_object", "H5Pclose"), ("digital_rf_create_hdf5_file", "H5Dcreate2")}
@@ -429,7 +452,7 @@ def r4_property_list_owners(repo=None):
     n = 0
     for fname, fn in tu.functions.items():
         for c in fn.calls():
-            if any(a.path() == OBJ + "->dataset_prop" for a in c.args):
+            if any(clib.alias_path(fn, a) == OBJ + "->dataset_prop" for a in c.args):
                 n += 1
                 if (fname, c.callee) in PROP_SITES:
                     r.ok("%s:%s %s %s" % (LIB, c.line, fname, c.callee), "expected use of dataset_prop")
